@@ -559,6 +559,10 @@ class SchedAdapter:
                 bad = sorted(k for k, v in views.items() if v)
                 report('C04/idle-but-not-reported-idle/' + '+'.join(bad),
                        f'nothing pending or in flight but {views}')
+        if tuple(ev) == ('tick',) and w.fsm.active and farm._jobs:
+            report('C04/released-batch-not-dispatched',
+                   f'after a dispatch the farm still holds released jobs it built no task for: '
+                   f'{[(j.tag, sorted(j.get("do"))) for j in farm._jobs]}')
         if ev[0] == 'tick' and w.fsm.active:
             left = self.runnable()
             if left:
